@@ -101,6 +101,7 @@ class Fn:
         self._defs = None
         self._ememo = {}
         self._cyc = 0
+        self._orig = None
 
     # -- basic
     def ty(self, ix):
@@ -261,6 +262,13 @@ class Fn:
         self._pdom = pdom
         return pdom
 
+    def obb(self, bb):
+        """the block a duplicated block was copied from (views duplicate blocks when threading jumps); itself otherwise.
+        Call expressions carry this id, so that a value computed in two copies of one block is one expression."""
+        if self._orig is None:
+            self._orig = {i: b.get('orig', i) for i, b in enumerate(self.blocks)}
+        return self._orig.get(bb, bb)
+
     # -- definitions
     def defs(self):
         """local -> list of (bb, idx, kind, payload); idx == len(stmts) for the
@@ -353,9 +361,9 @@ class Fn:
                 args = tuple(self.expr_of_operand(a, depth + 1, seen) for a in t['args'])
                 if c is None:
                     fe = self.expr_of_operand(t['func'], depth + 1, seen)
-                    exprs.append(('icall', fe, args, bb))
+                    exprs.append(('icall', fe, args, self.obb(bb)))
                 else:
-                    exprs.append(('call', c, args, bb))
+                    exprs.append(('call', c, args, self.obb(bb)))
             else:
                 exprs.append(self.expr_of_rvalue(payload, depth + 1, seen, bb))
         # identical alternatives (blocks duplicated by drop elaboration or by jump threading in a view) are one
